@@ -269,7 +269,7 @@ struct Ctx {
     char name[256];
     std::string cl = claim; for (auto& ch : cl) if (!isalnum((unsigned char)ch)) ch = '_';
     snprintf(name, sizeof name, "%s/%s_%s_s%" PRIu64 "_i%" PRIu64 "_%d.txt", wdir.c_str(), mon_name.c_str(),
-             cl.c_str(), seed, cur_index, viol_per_claim[claim]);
+             cl.c_str(), seed, cur_index, (int)viol_per_claim.size());
     std::ofstream f(name);
     f << "# witness written by " << mon_name << " claim " << claim << "\n";
     f << "kv _mon " << mon_name << "\n";
@@ -282,7 +282,9 @@ struct Ctx {
 
   void violation(const std::string& claim, const std::vector<std::string>& tags, const Case& c, const std::string& detail) {
     ++violations;
-    int& n = viol_per_claim[claim];
+    // witness files are capped per (claim, tag set), so a frequent known class cannot use up the files a rare one needs
+    std::string wkey = claim; for (auto& t : tags) { wkey += '|'; wkey += t; }
+    int& n = viol_per_claim[wkey];
     std::string wpath;
     if (!replay_path.empty()) wpath = replay_path;
     else if (n < max_witness_per_claim) wpath = write_witness(c, claim);
